@@ -6,11 +6,18 @@
    parts are pairwise disjoint and jointly exhaustive), equal sizes (+-1) for the same-size
    constructors, each training part is the complement of its validation part, index-based
    construction puts every element into exactly the requested fold (original order inside a fold).
-   NOT proved (correspondence + monitor only): class balance of createCVSameSizeBalanced,
-   createCVFullyIndexed / createCVBatch layouts, preservation of the element shape (the shape is not
-   part of the Coq model; it is compared by the correspondence run).                                *)
+   createCVSameSizeBalanced (members = per class a permutation of the class's positions, the shuffle
+   drawn by the library): contiguous fold layout with the same-size sizes; validation part p holds
+   exactly the members with running number p, p+k, p+2k, ... of the concatenated member lists (the
+   dealing continues across class borders); hence part p holds, of class c with n_c members,
+   n_c / k members plus one more iff one of the n_c mod k running numbers off_c, off_c + 1, ... is
+   congruent p modulo k (off_c = number of members of the classes before c): class counts of any two
+   folds differ by at most one, for every class.
+   NOT proved (correspondence + monitor only): createCVFullyIndexed / createCVBatch layouts,
+   preservation of the element shape (the shape is not part of the Coq model; it is compared by the
+   correspondence run).                                                                             *)
 From Coq Require Import List Arith Permutation.
-From SharkV Require Import ListAux C03Model C03Proofs C03Class C12Model C12Proofs.
+From SharkV Require Import ListAux C03Model C03Proofs C03Class C12Model C12Proofs C12BalancedProofs.
 Import ListNotations.
 
 Theorem C12_same_size_fold_sizes :
@@ -60,7 +67,52 @@ Theorem C12_balanced_dealing_is_permutation :
 Proof. exact dealt_order_perm. Qed.
 Print Assumptions C12_balanced_dealing_is_permutation.
 
+(* createCVSameSizeBalanced.  [fold_positions members k p] := the members (class after class, each class
+   in its shuffled order) whose running number 0,1,2,... is congruent p modulo k;
+   [cnt k p a n] := how many of the numbers a, a+1, ..., a+n-1 are congruent p modulo k *)
+Theorem C12_round_robin_count :
+  forall k p a n, p < k -> cnt k p a n = n / k + cnt k p a (n mod k) /\ cnt k p a (n mod k) <= 1.
+Proof. exact cnt_div. Qed.
+Print Assumptions C12_round_robin_count.
+
+Theorem C12_createCVSameSizeBalanced :
+  forall A dflt members k m (d : @data A) c, cv_balanced dflt members k m d = Some c ->
+    contiguous_cv c (val_sizes (nelems d) k) /\
+    map (fold_elems (cv_set c)) (cv_folds c) =
+      map (fun p => map (fun i => nth i (elems d) dflt) (fold_positions members k p)) (seq 0 k) /\
+    (forall s, In s (sizes (cv_set c)) -> 1 <= s <= m).
+Proof. intros A. exact (@cv_balanced_spec A). Qed.
+Print Assumptions C12_createCVSameSizeBalanced.
+
+(* what the dealing guarantees for the class counts, exactly (on the label container) *)
+Theorem C12_balanced_class_counts :
+  forall members k m (lab : @data nat) c,
+    valid_members (elems lab) members = true -> cv_balanced 0 members k m lab = Some c ->
+    forall cl p, cl < length members -> p < k ->
+      let n_c := count_in (elems lab) cl in
+      let off_c := sum (map (count_in (elems lab)) (seq 0 cl)) in
+      count_in (nth p (map (fold_elems (cv_set c)) (cv_folds c)) []) cl = n_c / k + cnt k p off_c (n_c mod k) /\
+      cnt k p off_c (n_c mod k) <= 1.
+Proof. exact cv_balanced_class_balance. Qed.
+Print Assumptions C12_balanced_class_counts.
+
+Theorem C12_balanced_class_counts_differ_by_at_most_one :
+  forall members k m (lab : @data nat) c,
+    valid_members (elems lab) members = true -> cv_balanced 0 members k m lab = Some c ->
+    forall cl p q, cl < length members -> p < k -> q < k ->
+      count_in (nth p (map (fold_elems (cv_set c)) (cv_folds c)) []) cl
+      <= count_in (nth q (map (fold_elems (cv_set c)) (cv_folds c)) []) cl + 1.
+Proof. exact cv_balanced_class_counts_differ_by_at_most_one. Qed.
+Print Assumptions C12_balanced_class_counts_differ_by_at_most_one.
+
 Example C12_example :
   exists c, cv_indexed 0 [1;0;1;2;0] 3 2 [[10;11;12];[13;14]] = Some c /\
             cv_set c = [[11;14];[10;12];[13]] /\ cv_folds c = [[0];[1];[2]].
+Proof. eexists. vm_compute. repeat split; reflexivity. Qed.
+
+(* labels 0 1 0 1 0 0 1, three folds: class 0 (4 members, shuffled 5 0 2 4) then class 1 (shuffled 6 1 3) *)
+Example C12_balanced_example :
+  exists c, valid_members (elems [[0;1;0;1];[0;0;1]]) [[5;0;2;4];[6;1;3]] = true /\
+            cv_balanced 0 [[5;0;2;4];[6;1;3]] 3 2 [[0;1;0;1];[0;0;1]] = Some c /\
+            map (fold_elems (cv_set c)) (cv_folds c) = [[0;0;1];[0;1];[0;1]].
 Proof. eexists. vm_compute. repeat split; reflexivity. Qed.
